@@ -14,7 +14,8 @@ extern "C" void h_c06_setup() {
     "harmonic {\n name hc\n colvars v\n centers 2.0\n targetCenters 5.0\n targetNumSteps 10\n forceConstant 3.0\n outputAccumulatedWork on\n}\n"
     "harmonic {\n name hs\n colvars v\n centers 2.0\n targetCenters 6.0\n targetNumSteps 5\n targetNumStages 4\n forceConstant 3.0\n}\n"
     "harmonic {\n name hk\n colvars v\n centers 2.0\n forceConstant 1.0\n targetForceConstant 9.0\n targetNumSteps 10\n lambdaExponent 2.0\n outputAccumulatedWork on\n}\n"
-    "harmonic {\n name hks\n colvars v\n centers 2.0\n forceConstant 1.0\n targetForceConstant 9.0\n targetNumSteps 8\n targetNumStages 3\n targetEquilSteps 3\n lambdaExponent 2.0\n}\n");
+    "harmonic {\n name hks\n colvars v\n centers 2.0\n forceConstant 1.0\n targetForceConstant 9.0\n targetNumSteps 8\n targetNumStages 3\n targetEquilSteps 3\n lambdaExponent 2.0\n}\n"
+    "harmonic {\n name hkd\n colvars v\n centers 2.0\n forceConstant 6.0\n decoupling on\n targetNumSteps 8\n targetNumStages 3\n targetEquilSteps 3\n lambdaExponent 2.0\n}\n");
 }
 
 static void place(cvm::real x, cvm::real z) {
@@ -127,8 +128,8 @@ extern "C" void h_c06_k_continuous() {
   verif_assert_eq(b->acc_work, w_expect, "k.continuous.accumulated_work");
 }
 
-extern "C" void h_c06_k_staged() {
-  colvarbias_restraint_harmonic *b = dynamic_cast<colvarbias_restraint_harmonic *>(e2e_bias("hks"));
+static void k_staged(const char *bias, bool dec, cvm::real k0, cvm::real k1) {
+  colvarbias_restraint_harmonic *b = dynamic_cast<colvarbias_restraint_harmonic *>(e2e_bias(bias));
   cvm::real x = verif_sym_double("x"); verif_assume(x > 0.0 && x < 1000.0);
   place(x, 0.0);
   long t, r, f; sym_steps(t, r, f);
@@ -137,14 +138,14 @@ extern "C" void h_c06_k_staged() {
   long s = verif_sym_int("stage", 0, 3);
   cvm::real fe_prev = verif_sym_double("fe_prev"), k_prev = verif_sym_double("k_prev");
   b->stage = (int) s; b->restraint_FE = fe_prev; b->force_k = k_prev;
-  verif_reach("k_staged");
+  verif_reach(dec ? "k_staged_decoupling" : "k_staged");
   px->colvars->calc_colvars();
   b->update();
   long ph = (t - f) % 8;
-  cvm::real lam = (cvm::real) s / 3.0;
+  cvm::real lam = dec ? 1.0 - (cvm::real) s / 3.0 : (cvm::real) s / 3.0;
   cvm::real dUdk = 0.5 * (x - 2.0) * (x - 2.0) / 0.25;
   // dU/dlambda = e * lambda^(e-1) * (k1 - k0) * dU/dk, accumulated only after the equilibration steps of each stage
-  cvm::real fe_acc = (ph >= 3) ? fe_prev + 2.0 * lam * 8.0 * dUdk : fe_prev;
+  cvm::real fe_acc = (ph >= 3) ? fe_prev + 2.0 * lam * (k1 - k0) * dUdk : fe_prev;
   bool stage_end = (ph == 0);
   if (stage_end) {
     int found = 0;
@@ -154,6 +155,9 @@ extern "C" void h_c06_k_staged() {
   bool next = stage_end && s < 3;
   verif_assert(b->stage == (next ? s + 1 : s), "k.staged.stage");
   verif_assert_eq(b->restraint_FE, next ? 0.0 : fe_acc, "k.staged.accumulator");
-  cvm::real lam2 = (cvm::real) (s + 1) / 3.0;
-  verif_assert_eq(b->force_k, next ? 1.0 + 8.0 * lam2 * lam2 : k_prev, "k.staged.k");
+  cvm::real lam2 = dec ? 1.0 - (cvm::real) (s + 1) / 3.0 : (cvm::real) (s + 1) / 3.0;
+  verif_assert_eq(b->force_k, next ? k0 + (k1 - k0) * lam2 * lam2 : k_prev, "k.staged.k");
 }
+extern "C" void h_c06_k_staged() { k_staged("hks", false, 1.0, 9.0); }
+// decoupling: lambda runs from 1 to 0 in stages, k = forceConstant * lambda^e, TI derivative and logged Lambda use the same lambda
+extern "C" void h_c06_k_staged_decoupling() { k_staged("hkd", true, 0.0, 6.0); }
